@@ -189,7 +189,8 @@ def raii_guard_of(ctx, f, field_q):
         if x.get("kind") != "VarDecl":
             continue
         t = qt(x).replace("const ", "").strip()
-        recs = [q for q in prog.records if q == t or q.endswith("::" + t) or t.endswith(q)]
+        recs = [q for q in prog.records if q == t or q.endswith("::" + t) or t.endswith(q)] or \
+               [q for q in prog.records if q.startswith(CQ) and q.split("::")[-1] == t.split("::")[-1]]
         if not recs:
             continue
         cls = recs[0]
